@@ -112,12 +112,18 @@ SPECS = {
         r is Ok && rtype_wf(spec_rtype_of(self.rtype_with_data)) && rclass_wf(self.rclass) ==>
             rr_prefix_at(final(buffer).bytes(), old(buffer).bytes().len() as int) is Some
             && rr_header_is(*self, final(buffer).bytes(), old(buffer).bytes().len() as int)
-            && rr_end(final(buffer).bytes(), old(buffer).bytes().len() as int) == final(buffer).bytes().len(), // [C04:written_record_header_reads_back_and_rdlength_spans_the_rdata]""",
+            && rr_end(final(buffer).bytes(), old(buffer).bytes().len() as int) == final(buffer).bytes().len(), // [C04:written_record_header_reads_back_and_rdlength_spans_the_rdata]
+        // ... and so does its RDATA: the whole record is well-formed for an independent decoder and reads back as the same record
+        r is Ok && rtype_wf(spec_rtype_of(self.rtype_with_data)) && rclass_wf(self.rclass) ==>
+            rr_at(final(buffer).bytes(), old(buffer).bytes().len() as int) == Some(final(buffer).bytes().len() as int)
+            && rr_rdata_is(*self, final(buffer).bytes(), old(buffer).bytes().len() as int), // [C04:written_record_reads_back_as_the_same_record]""",
         "attrs": "#[verifier::rlimit(600)] // 20 match arms",
         "entry": "broadcast use lemma_be16_div_mod;",
         "anchors": [{"after": "self.name.serialise(buffer, true);", "proof": "let ghost w1__ = *buffer;"},
                     {"after": "let rdlength_index = buffer.index();", "at": "before", "proof": "let ghost w_mid__ = *buffer;"},
+                    {"after_re": r"buffer\.write_u16\(0\);", "proof": "let ghost w_rs__ = *buffer;"},
                     {"after": "let rdlength = usize_to_u16(", "at": "before", "proof": """let ghost w_pre__ = *buffer;
+assert(buffer.bytes() =~= w_rs__.bytes() + rdata_enc(self.rtype_with_data)); // [C04:rdata_is_written_in_the_layout_of_its_type]
 assert(forall|n: DomainName| #[trigger] buffer.name_pointers@.contains_key(n) ==>
     (w_mid__.name_pointers@.contains_key(n) && buffer.name_pointers@[n] == w_mid__.name_pointers@[n]) || ptr_off(buffer.name_pointers@[n]) >= w_mid__.bytes().len() + 2);"""},
                     {"after": "buffer.octets[rdlength_index + 1] = lo;", "proof": """proof {
@@ -131,6 +137,13 @@ assert(forall|n: DomainName| #[trigger] buffer.name_pointers@.contains_key(n) ==
     assert(is_prefix(w_mid__.bytes(), buffer.bytes()));
     assert(buffer.bytes()[e] == w_mid__.bytes()[e] && buffer.bytes()[e + 1] == w_mid__.bytes()[e + 1] && buffer.bytes()[e + 2] == w_mid__.bytes()[e + 2] && buffer.bytes()[e + 3] == w_mid__.bytes()[e + 3]);
     assert(buffer.bytes()[e + 4] == w_mid__.bytes()[e + 4] && buffer.bytes()[e + 5] == w_mid__.bytes()[e + 5] && buffer.bytes()[e + 6] == w_mid__.bytes()[e + 6] && buffer.bytes()[e + 7] == w_mid__.bytes()[e + 7]);
+    if rtype_wf(spec_rtype_of(self.rtype_with_data)) && rclass_wf(self.rclass) {
+        let rs = w_rs__.bytes().len() as int; let l = rdata_enc(self.rtype_with_data).len() as int;
+        assert(rs == e + 10 && buffer.bytes().len() == rs + l);
+        assert(buffer.bytes().subrange(rs, rs + l) =~= rdata_enc(self.rtype_with_data));
+        lemma_rdata_reads_back(buffer.bytes(), rs, self.rtype_with_data);
+        reveal(rr_at);
+    }
 }"""}]},
 }
 for t in ("QueryType", "QueryClass", "RecordType", "RecordClass"):
@@ -162,7 +175,7 @@ def build(G):
     G.item(S, "enum", "Error")
     G.item(S, "struct", "WritableBuffer")
     G.file(os.path.join(PRELUDE, "wire_spec.rs"))
-    nd = WD.SPEC_RS[WD.SPEC_RS.index("// ---- C03 stage 2"):WD.SPEC_RS.index("// RDATA per record type")]
+    nd = WD.SPEC_RS[WD.SPEC_RS.index("// ---- C03 stage 2"):WD.SPEC_RS.index("pub open spec fn questions_end(")]
     G.raw(nd, ("spec", "name spec decoder (shared with wire_decode)"))
     G.file(os.path.join(VERIF, "units", "wire_codec.spec.rs"))
     specs = dict(SPECS)
